@@ -204,17 +204,26 @@ def gen_ud(rng):
     if r < 0.35:
         n = rng.choice([0, 1, 2, 3, 10, 40])
         sigs = [rand_sig(rng) for _ in range(n)]
+        if n >= 2 and rng.random() < 0.5:      # the same position/signature words under different chip models
+            a0, b0, c0 = sigs[0]
+            sigs = [(rng.choice(KNOWN_MODELS + ["%08x" % rng.randrange(1 << 32)]), b0, c0) for _ in range(n)]
         payload = struct.pack(">I", n) + b"".join(bytes.fromhex(a + b + c) for a, b, c in sigs)
         return 1, payload, {"Signature List": [sig_ref(a, b, c) for a, b, c in sigs]}, ("siglist", n)
     if r < 0.75:
         chips = []
+        # half of the dumps reuse a few (register id, instance) pairs on every chip - chips of different models, with and
+        # without chip data - so that anything remembered from one chip and shown for another is visible
+        shared = rng.sample(["abcdef", "123456", "000001", "%06x" % rng.randrange(1 << 24)], 3) if rng.random() < 0.5 else None
         for _ in range(rng.choice([0, 1, 2, 3, 6])):
             model = rng.choice(KNOWN_MODELS) if rng.random() < 0.6 else "%08x" % rng.randrange(1 << 32)
             regs = []
             for _k in range(rng.choice([0, 1, 2, 5, 12])):
                 rid = rng.choice(KNOWN_REGS.get(model, ["ffffff"])) if rng.random() < 0.6 else "%06x" % rng.randrange(1 << 24)
+                if shared:
+                    rid = rng.choice(shared)
                 size = rng.choice([1, 2, 3, 4, 7, 8, 16, 255]) if rng.random() < 0.8 else rng.randrange(1, 256)
-                regs.append((rid, rng.choice([0, 1, 2, 3, 255]), bytes(rng.randrange(256) for _ in range(size))))
+                regs.append((rid, rng.choice([0, 0, 2, 3]) if shared else rng.choice([0, 1, 2, 3, 255]),
+                             bytes(rng.randrange(256) for _ in range(size))))
             chips.append((model, rng.randrange(0x10000), rng.randrange(256), regs))
         lines = regdump_ref(chips)
         return 2, enc_regdump(chips), {"Register Dump": lines}, ("regdump", len(lines))
